@@ -159,6 +159,24 @@ theorem writes_spec (chunks : List (List UInt8)) : ∀ (e : Enc), e.size < 3 →
     refine ⟨e2, by simp [writes, h1, h2], hs2, ?_⟩
     intro more; rw [hp2, hp1]; simp
 
+theorem runOps_spec (ops : List EncOp) : ∀ (e : Enc), e.size < 3 →
+    ∃ e', runOps e ops = .ok e' ∧ e'.size < 3 ∧
+      ∀ more, pendingText e' more = pendingText e (written ops ++ more) := by
+  induction ops with
+  | nil => intro e h; exact ⟨e, rfl, h, fun _ => by simp [written]⟩
+  | cons op rest ih =>
+    intro e h
+    cases op with
+    | write c =>
+      obtain ⟨e1, h1, hs1, hp1⟩ := write_spec c e h
+      obtain ⟨e2, h2, hs2, hp2⟩ := ih e1 hs1
+      refine ⟨e2, by simp [runOps, h1, h2], hs2, ?_⟩
+      intro more; rw [hp2, hp1]; simp [written]
+    | flush =>
+      obtain ⟨e2, h2, hs2, hp2⟩ := ih e h
+      refine ⟨e2, by simp [runOps, flush, h2], hs2, ?_⟩
+      intro more; rw [hp2]; simp [written]
+
 theorem finish_spec (e : Enc) (h : e.size < 3) : finish e = .ok (pendingText e []) := by
   obtain ⟨inner, ⟨x0, x1, x2⟩, size⟩ := e
   simp only at h
